@@ -195,7 +195,7 @@ Definition step (s : st) (o : op) : st * outcome :=
   match o with
   | RegColl c k =>
     match ctype s c with
-    | Some k' => if ckind_eqb k k' then (s, Ok) else (s, Err Conflict)
+    | Some _ => (s, Ok)      (* registerCollection of an existing name returns False whatever its type *)
     | None => (mk ((c, k) :: colls s) (chains s) (ds s) (tags s) (calibs s) (loc s) (trash s) (recs s) (files s), Ok)
     end
   | SetChain c ch =>
@@ -209,22 +209,22 @@ Definition step (s : st) (o : op) : st * outcome :=
     | Some _ => (s, Err CollType)
     end
   | Put d r k =>
-    match ds_get s d with
-    | Some a =>
-      (* _importDatasets finds the id: same definition is a no-op, anything else a conflict; then the datastore
-         must not know it *)
-      if negb (art_eqb a (r, k)) then (s, Err Conflict)
-      else if has_rec s d || memN d (loc s) then (s, Err Conflict)
-      else (store s d r k false, Ok)
-    | None =>
-      match ctype s r with
-      | None => (s, Err MissingColl)
-      | Some Run =>
+    (* _importDatasets resolves the run first; then an id the registry already has must have the same definition
+       (no-op) else it is a conflict; then the datastore must not know the id *)
+    match ctype s r with
+    | None => (s, Err MissingColl)
+    | Some Run =>
+      match ds_get s d with
+      | Some a =>
+        if negb (art_eqb a (r, k)) then (s, Err Conflict)
+        else if has_rec s d || memN d (loc s) then (s, Err Conflict)
+        else (store s d r k false, Ok)
+      | None =>
         if existsb (fun p => art_eqb (snd p) (r, k)) (ds s) then (s, Err Conflict)
         else if has_rec s d || memN d (loc s) then (s, Err Conflict)
         else (store s d r k true, Ok)
-      | Some _ => (s, Err CollType)
       end
+    | Some _ => (s, Err CollType)
     end
   | Tag c l =>
     match ctype s c with
